@@ -4,7 +4,14 @@ import Juniper.Model.ParMap
 /-! Conformance drivers for the `parallel.MapStream` / `MapIterator` models (C14, C08/C09 clauses):
 `driver parstream`, `driver pariter`.
 
-`parstream` lines: `init <P> <B> <gmp>`, `next 1|0` (consumer calls Next with a live / expired
+Error identities are kept apart in the observation: `parent` (the caller's context error, a sentinel of the
+harness), `canceled-src` / `canceled-close` / `canceled-lib` (a `context.Canceled` that the source returned
+after the library cancelled its context / that `Close` caused / that the errgroup caused), `F<k>`, `S<k>`. The
+harness prints a `context.Canceled` / `context.DeadlineExceeded` that `Next` returned as `canceled` /
+`deadline`: no reachable state of the LTS of the code as it is shows either (the first recorded error is
+always earlier), so such a trace is rejected whichever of the three it was.
+
+`parstream` lines: `init <P> <B> <gmp>`, `time` (virtual time passes; not a label), `next 1|0` (consumer calls Next with a live / expired
 context), `expire`, `close`, `pcancel`, `src item <v>` | `src end` | `src err <k>` (the pending source
 call returns), `f <idx> ok <v>` | `f <idx> err <k>` (the pending call of f returns), `obs <observation>`.
 The instrumented source of the harness returns `ctx.Err()` by itself when its context is done and its
@@ -24,19 +31,21 @@ structure DSt where
   /-- the source's `Close` is an action of the environment (`src closed`), not an internal step -/
   slow : Bool := false
 
-/-- error numbers standing for "the source returned its context's error" -/
-def srcCtxDeadline : Nat := 9001
+/-- error numbers standing for "the source returned its context's error": the caller's own error (the
+harness cancels the context it passed to MapStream with a sentinel error, no deadline), or the library's
+`context.Canceled` (`Close`, or the errgroup after a failure) -/
+def srcCtxParent : Nat := 9001
 def srcCtxCanceled : Nat := 9002
 
 def srcCtxLabel (s : St) : Label :=
   match s.ctxCause with
-  | some .parent => .srcRet (.err srcCtxDeadline)
+  | some .parent => .srcRet (.err srcCtxParent)
   | _ => .srcRet (.err srcCtxCanceled)
 
 def dstep (cfg : Cfg) (s : St) (l : Label) : Option St :=
   match l with
   | .srcRet (.err k) =>
-    if k == srcCtxDeadline || k == srcCtxCanceled then
+    if k == srcCtxParent || k == srcCtxCanceled then
       (if ctxDone s && l == srcCtxLabel s then step cfg s l else none)
     else step cfg s l
   | _ => step cfg s l
@@ -45,12 +54,24 @@ def sys (cfg : Cfg) (slow : Bool := false) : Sys St Label :=
   { step := dstep cfg,
     internal := fun s => internalLabels s ++ (if slow then [srcCtxLabel s] else [.srcCloseRet, srcCtxLabel s]) }
 
+/-- `libCtxEnd` ("the library's context ends by the library's own doing") is enabled only for code whose
+context origin is not the plain cancel-only one (`Stream.ctxPlain = false`). Nothing in the harness triggers
+it — it comes with the passage of (virtual) time — so it *may* happen at any moment but need not: the state
+set is closed under it, while quiescence is judged without it. On such a tree the model follows the code. -/
+def sysTime (cfg : Cfg) (slow : Bool := false) : Sys St Label :=
+  { step := dstep cfg, internal := fun s => (sys cfg slow).internal s ++ [.libCtxEnd] }
+
+def advanceS (cfg : Cfg) (slow : Bool) (states : List St) (act : St → Option St) : List St × Bool :=
+  let next := states.filterMap act
+  let (all, ok) := closure (sysTime cfg slow) next
+  (all.toList.filter (quiescent (sys cfg slow)), ok)
+
 def showErr : Err → String
   | .f k => s!"F{k}"
-  | .src k => if k == srcCtxDeadline then "deadline" else if k == srcCtxCanceled then "canceled" else s!"S{k}"
-  | .ctxParent => "deadline"
-  | .ctxClose => "canceled"
-  | .ctxLib => "canceled"
+  | .src k => if k == srcCtxParent then "parent" else if k == srcCtxCanceled then "canceled-src" else s!"S{k}"
+  | .ctxParent => "parent"
+  | .ctxClose => "canceled-close"
+  | .ctxLib => "canceled-lib"
 
 def showRes : NextRes → String
   | .val k v => s!"{k}:{v}"
@@ -82,7 +103,7 @@ def reply (d : DSt) : DSt × String :=
   if d.states.isEmpty then (d, "empty") else (d, s!"ok {d.states.length}")
 
 def act (d : DSt) (f : St → Option St) : DSt × String :=
-  let (st, ok) := advance (sys d.cfg d.slow) d.states f
+  let (st, ok) := advanceS d.cfg d.slow d.states f
   reply { d with states := st, overflow := d.overflow || !ok }
 
 def findWorker (s : St) (k : Nat) : Option Nat :=
@@ -96,6 +117,9 @@ def step (d : DSt) : List String → DSt × String
     let cfg : Cfg := { code := code, P := intOr p, B := intOr b, gmp := natOr g 1 }
     act { d with cfg := cfg, states := [init cfg], overflow := false, slow := true } some
   | ["src", "closed"] => act d (fun s => Stream.step d.cfg s .srcCloseRet)
+  -- virtual time passes with everything blocked: no label of the LTS of the code as it is; for code whose
+  -- context can end by itself the closure below lets `libCtxEnd` happen
+  | ["time"] => act d some
   | ["next", l] => act d (fun s => Stream.step d.cfg s (.nextCall (l == "1")))
   | ["expire"] =>
     -- a `Next` that is already inside `s.eg.Wait()` does not look at its context any more: its expiry
@@ -161,6 +185,7 @@ def step (d : DSt) : List String → DSt × String
     let cfg : Cfg := { code := code, P := intOr p, B := intOr b, gmp := natOr g 1 }
     act { d with cfg := cfg, states := [init cfg], overflow := false } some
   | ["next"] => act d (fun s => Iter.step d.cfg s .nextCall)
+  | ["time"] => act d some
   | ["src", "item", v] => act d (fun s => Iter.step d.cfg s (.srcRet (some (natOr v))))
   | ["src", "end"] => act d (fun s => Iter.step d.cfg s (.srcRet none))
   | ["f", k, "ok", v] =>
